@@ -237,6 +237,9 @@ var c04Arith = core.Mon(c04, "arith-exact", func(w *core.W, e *AExpr) {
 			return
 		}
 	}
+	if got.Finite() && got.Equal(m.V) && core.Hash64(src)%300 == 7 && !substitutionCheck(w, "arith-exact", "C04", e, e.Src(), d, nil) {
+		return
+	}
 	if !got.Finite() || !got.Equal(m.V) {
 		sig := "C04/wrong-result:" + op
 		if e.Op != "" && (e.L.Op != "" || e.R.Op != "") {
